@@ -143,6 +143,8 @@ var (
 	Preemptions  int64 // ... of kind KPreempt
 	ForcedYields int64
 	Deadlock     bool
+	Draining     bool  // only left-behind goroutines of the code under test remain, all waiting: they are being unwound
+	LeftBehind   int64 // how many such goroutines were unwound
 	BudgetAborts int64
 	TaskPanics   int64
 	StuckOutside bool
@@ -204,7 +206,7 @@ func Init(c Config) {
 		mean = 1
 	}
 	cur, nTasks, active = -1, 0, false
-	halting, Deadlock = false, false
+	halting, Deadlock, Draining = false, false, false
 	resetClosed()
 	nPend, rdvActive = 0, false
 	defLimit = c.DefaultOpLimit
@@ -332,7 +334,9 @@ func taskPanicked(id int, r interface{}) {
 		// the run is ending (exit / detected deadlock, which the oracles
 		// report): unwinding a task this way is expected
 	case BudgetExceeded:
-		if PanicHandler == nil {
+		// a goroutine of the code under test used up the step budget it
+		// inherited (an endless loop nobody waits for any more): it just ends
+		if PanicHandler == nil && !tasks[id].fromCode {
 			TaskPanics++
 		}
 	default:
@@ -484,7 +488,27 @@ func decide(me, kind, site int) int {
 			}
 		}
 		if n > 0 || kind == KBlocked {
-			Deadlock = true
+			// Only goroutines that the code under test started itself are left
+			// and every one of them waits: they were left behind (or are
+			// background workers waiting for work that will not come), which no
+			// caller is waiting for. That is not a deadlock of the program: they
+			// are unwound quietly (Draining). A deadlock is reported when a task of
+			// the workload itself can never proceed.
+			own := kind == KBlocked && !tasks[me].fromCode
+			for i := 0; i < n; i++ {
+				if !tasks[cand[i]].fromCode {
+					own = true
+				}
+			}
+			if own {
+				Deadlock = true
+			} else {
+				Draining = true
+				LeftBehind += int64(n)
+				if kind == KBlocked {
+					LeftBehind++
+				}
+			}
 		}
 		if n == 0 {
 			event(site, me, -1, kind)
@@ -747,7 +771,7 @@ func Blocked() {
 	if halting {
 		panic(HaltAbort{})
 	}
-	if Deadlock {
+	if Deadlock || Draining {
 		panic(DeadlockAbort{})
 	}
 	me := cur
@@ -756,7 +780,7 @@ func Blocked() {
 	t.blockedAt = syncEpoch
 	ForcedYields++
 	next := decide(me, KBlocked, -2)
-	if Deadlock {
+	if Deadlock || Draining {
 		// nothing can ever release what this task waits for
 		t.state = stRunnable
 		panic(DeadlockAbort{})
